@@ -81,7 +81,7 @@ def run(F, R, tier):
     for m in ("visit_import_decl", "visit_named_export", "visit_export_all", "visit_ts_import_type", "visit_call_expr", "visit_ts_import_equals_decl", "visit_ts_module_decl"):
         b = overrides.get(m)
         if b:
-            ps = [n for n in b["_nodes"] if n.get("k") == "MethodCall" and n["name"] == "push" and peel(n["recv"]).get("field") == "items"]
+            ps = [n for n in b["_nodes"] if n.get("k") == "MethodCall" and n["name"] == "push" and field_of(n["recv"]) == "items"]
             R.ob("C08-V", "%s records a dependency descriptor" % m, len(ps) == 1, "%s pushes %d descriptors (expected exactly one site)" % (m, len(ps)), b["file"])
             for p in ps:
                 st = [s for s in walk(p) if s.get("k") == "Struct" and (s.get("adt") or "").endswith("DependencyDescriptor")]
